@@ -129,35 +129,58 @@ def judge_modes(acc, layout, si, r, text, seen):
     except Exception:  # noqa
         acc.extra['exceptions_left_to_C03'] += 1
         return
-    key = f"sec_colon_cautious|{nc}"
-    try:
-        d = _p.PLSSDesc(nc, config='sec_colon_cautious')
-        acc.case(key, tr(d))
-        acc.states += 1
-        if tr(d) != b:
-            acc.violation('cautious_differs_from_default', f"C20:cautious_differs_from_default:{nc}",
-                          dict(case1, mode='sec_colon_cautious'), got=tr(d), exp=b)
-        elif not any(isinstance(f, str) and f.startswith('pulled_sec_without_colon') for f in d.w_flags):
-            acc.violation('cautious_warning_missing', f"C20:cautious_warning_missing:{nc}", dict(case1, mode='sec_colon_cautious'),
-                          got=d.w_flags, exp='pulled_sec_without_colon<...>')
-        else:
-            acc.guard('cautious_second_pass')
-    except Exception as ex:  # noqa
-        acc.case(key, 'EXC')
-        acc.violation('exception', f"C20:exception:{key}", dict(case1, mode='sec_colon_cautious'), got=f"{type(ex).__name__}: {ex}")
-    key = f"sec_colon_required|{nc}"
-    try:
-        d = _p.PLSSDesc(nc, config='sec_colon_required')
-        acc.case(key, tr(d))
-        acc.states += 1
-        if len(d.tracts) != 1 or not edge_only(d.pp_desc, d.tracts[0].desc):
-            acc.violation('required_not_single_fallback', f"C20:required_not_single_fallback:{nc}",
-                          dict(case1, mode='sec_colon_required'), got=tr(d), exp=['<one tract>', d.pp_desc])
-        else:
-            acc.guard('required_fallback')
-    except Exception as ex:  # noqa
-        acc.case(key, 'EXC')
-        acc.violation('exception', f"C20:exception:{key}", dict(case1, mode='sec_colon_required'), got=f"{type(ex).__name__}: {ex}")
+    def routes(mode):
+        """(name, function -> parsed PLSSDesc).  The mode given by config at creation, and - for renderings with <= 1 deviation -
+        through the other channels, incl. a keyword on an object that is configured with the *other* colon mode."""
+        other = 'sec_colon_cautious' if mode == 'sec_colon_required' else 'sec_colon_required'
+        kw = {'sec_colon_required': True} if mode == 'sec_colon_required' else {'sec_colon_required': False, 'sec_colon_cautious': True}
+        out = [('config', lambda: _p.PLSSDesc(nc, config=mode))]
+        if len(r) <= 1:
+            def via_kw(cfg):
+                d_ = _p.PLSSDesc(nc, config=cfg)
+                d_.parse(**kw)
+                return d_
+
+            def via_assign():
+                d_ = _p.PLSSDesc(nc, wait_to_parse=True)
+                d_.config = mode
+                d_.parse()
+                return d_
+            out += [('keyword', lambda: via_kw(None)), ('keyword_on_' + other, lambda: via_kw(other)), ('config_assigned', via_assign)]
+        return out
+
+    for rname, run in routes('sec_colon_cautious'):
+        key = f"sec_colon_cautious|{rname}|{nc}"
+        case2 = dict(case1, mode='sec_colon_cautious', route=rname)
+        try:
+            d = run()
+            acc.case(key, tr(d))
+            acc.states += 1
+            if tr(d) != b:
+                acc.violation('cautious_differs_from_default', f"C20:cautious_differs_from_default:{rname}:{nc}", case2, got=tr(d), exp=b)
+            elif not any(isinstance(f, str) and f.startswith('pulled_sec_without_colon') for f in d.w_flags):
+                acc.violation('cautious_warning_missing', f"C20:cautious_warning_missing:{rname}:{nc}", case2,
+                              got=d.w_flags, exp='pulled_sec_without_colon<...>')
+            else:
+                acc.guard('cautious_second_pass')
+        except Exception as ex:  # noqa
+            acc.case(key, 'EXC')
+            acc.violation('exception', f"C20:exception:{key}", case2, got=f"{type(ex).__name__}: {ex}")
+    for rname, run in routes('sec_colon_required'):
+        key = f"sec_colon_required|{rname}|{nc}"
+        case2 = dict(case1, mode='sec_colon_required', route=rname)
+        try:
+            d = run()
+            acc.case(key, tr(d))
+            acc.states += 1
+            if len(d.tracts) != 1 or d.tracts[0].desc != d.pp_desc:
+                acc.violation('required_not_single_fallback', f"C20:required_not_single_fallback:{rname}:{nc}", case2,
+                              got=tr(d), exp=['<one tract>', d.pp_desc])
+            else:
+                acc.guard('required_fallback')
+        except Exception as ex:  # noqa
+            acc.case(key, 'EXC')
+            acc.violation('exception', f"C20:exception:{key}", case2, got=f"{type(ex).__name__}: {ex}")
 
 
 def sw_text(lead, sec, trail, place):
